@@ -231,79 +231,7 @@ func c10(c *ctx) {
 		f.run(cases)
 	}
 
-	// ---------- texts for monitors 2 and 3 ----------
-	type txt struct {
-		text string
-		kind string
-	}
-	var texts []txt
-	var valid []string
-	for _, fn := range []string{"peg.peg", "grammars/calculator/calculator.peg", "grammars/calculatorast/calculator.peg", "grammars/c/c.peg", "grammars/fexl/fexl.peg", "grammars/java/java_1_7.peg", "cmd/peg-bootstrap/bootstrap.peg", "cmd/peg-bootstrap/peg.bootstrap.peg"} {
-		if b, err := os.ReadFile(filepath.Join(c.env.Repo, fn)); err == nil {
-			texts = append(texts, txt{string(b), "shipped"})
-			if len(b) < 8000 {
-				valid = append(valid, string(b))
-			}
-		}
-	}
-	headers := []string{"", "# a comment\n", "// another\n\n", "\n\n  \t\n", "# one\n# two\n\n// three\n", "#\n", "//no space\n \n"}
-	importSets := [][]string{nil, {`import "fmt"`}, {`import f "fmt"`, `import "os/exec"`}, {"import (\n\"strings\"\nx \"os\"\n)"}, {"import (\n \"a/b-c.d\"\n\n y_1 \"z\"\n )"}, {`import"fmt"`}}
-	states := []string{"", " n int", " m map[string]struct{ a int }\n f func() { }", " s string // {}", "\n"}
-	esc := []rune("ab'\"[]-\\^\n\t\r\x1b\x7féÿ\u0080AZ09 {}<>/&!?*+.()#←\U0001F600")
-	for i := 0; i < nValid; i++ {
-		var g *gram.Grammar
-		switch i % 5 {
-		case 0:
-			g = gram.ChoiceHeavy(r)
-		case 1:
-			g = gram.Backtracky(r, esc[:12])
-		case 2:
-			g, _ = gram.Planted(r)
-		default:
-			p := gram.AllOps()
-			p.Alphabet = esc
-			p.LLit, p.LStr, p.LCILit, p.LClass, p.LNegClass, p.LCIClass = 6, 6, 5, 5, 4, 4
-			g = gram.Random(r, p)
-		}
-		o := gram.PrintOpts{Package: []string{"g", "main", "_p9", "Package"}[r.Intn(4)], Type: []string{"P", "Peg", "my_Parser1"}[r.Intn(3)],
-			State: states[r.Intn(len(states))], Imports: importSets[r.Intn(len(importSets))], Header: headers[r.Intn(len(headers))],
-			V: rand.New(rand.NewSource(c.env.Seed*131 + int64(i)))}
-		if i%7 == 0 {
-			o.V = nil
-		}
-		o.ActionCode = func(id int) string {
-			return []string{fmt.Sprintf("p.n += %d", id), "if true { p.x() }", "/* } */ a := map[int]struct{}{}; _ = a", "s := \"\\\"\"; _ = s", ""}[(id+i)%5]
-		}
-		o.StateCode = func(id int) string { return fmt.Sprintf("p.k[%d]++", id) }
-		t := gram.PrintGrammar(g, o)
-		// a few texts with balanced braces hidden in strings/comments break textual brace counting on purpose: keep them
-		texts = append(texts, txt{t, "valid"})
-		valid = append(valid, t)
-	}
-	for i := 0; i < nMut; i++ {
-		t := valid[r.Intn(len(valid))]
-		m := mutateText(r, t)
-		for k := r.Intn(3); k > 0; k-- {
-			m = mutateText(r, m)
-		}
-		texts = append(texts, txt{m, "mutant"})
-	}
-	for i := 0; i < nRand; i++ {
-		n := 1 + r.Intn(60)
-		rs := make([]rune, n)
-		for j := range rs {
-			rs[j] = syntaxAlphabet[r.Intn(len(syntaxAlphabet))]
-		}
-		pre := ""
-		if i%2 == 0 {
-			pre = "package p\ntype T Peg {}\n"
-		}
-		texts = append(texts, txt{pre + string(rs), "random"})
-	}
-	for _, t := range []string{"", "\x00", "\xff\xfe", "package", "package p", "package p\ntype T Peg {}", "package p\ntype T Peg {}\nA <- ", "package p\ntype T Peg {}\nA <- 'a'", "package p\ntype T Peg {}\nA <- 'a' # no newline",
-		"package p\ntype T Peg {}\nA <- ''\nB <- \"\" [] [[]]\n", "package p\ntype T Peg {}\nA <- [z-a] [\\0x10FFFF-\\0x0]\n", "package p\ntype T Peg {}\nA <- '\\377\\200\\0x80\\0X7f\\12\\N'\n"} {
-		texts = append(texts, txt{t, "boundary"})
-	}
+	texts := grammarTexts(c, r, nValid, nMut, nRand)
 
 	// ---------- monitors 2 and 3: tree equality / rejection, against the real front end ----------
 	fe := buildFront(c, filepath.Join(c.env.Repo, "peg.peg.go"), false, "c10")
@@ -408,4 +336,86 @@ func c10(c *ctx) {
 		"monitor 3 (rejection): syntax-level mutants of valid texts (replace/delete/insert/truncate/duplicate/swap, injected empty literals/classes, bad escapes, unbalanced braces, missing final newline) and random strings over the syntax alphabet: the reader rejects => peg must reject with an error (no panic, no process death), the reader accepts => trees must be equal; a sample of malformed texts also goes through the CLI. " +
 		"distinct_nontrivial = distinct accepted texts containing an escape, a class or a double-quoted literal, plus distinct mutated/random texts rejected by both."
 	c.run.Assume("the independent reader takes its rules from docs/peg-file-syntax.md and, where the docs only show examples, from the grammar of the language in peg.peg lines 22-129 read as a PEG; case-insensitivity is ASCII letter folding (DESIGN 6.3)")
+}
+
+type txt struct {
+	text string
+	kind string
+}
+
+// grammarTexts: the stream of grammar texts used by C10 (monitors 2, 3) and C17 (front-end agreement): shipped
+// grammars, generated valid texts with spelling variants and varied headers/imports/state, syntax-level mutants,
+// random strings over the syntax alphabet, boundary texts.
+func grammarTexts(c *ctx, r *rand.Rand, nValid, nMut, nRand int) []txt {
+	// ---------- texts for monitors 2 and 3 ----------
+	var texts []txt
+	var valid []string
+	for _, fn := range []string{"peg.peg", "grammars/calculator/calculator.peg", "grammars/calculatorast/calculator.peg", "grammars/c/c.peg", "grammars/fexl/fexl.peg", "grammars/java/java_1_7.peg", "cmd/peg-bootstrap/bootstrap.peg", "cmd/peg-bootstrap/peg.bootstrap.peg"} {
+		if b, err := os.ReadFile(filepath.Join(c.env.Repo, fn)); err == nil {
+			texts = append(texts, txt{string(b), "shipped"})
+			if len(b) < 8000 {
+				valid = append(valid, string(b))
+			}
+		}
+	}
+	headers := []string{"", "# a comment\n", "// another\n\n", "\n\n  \t\n", "# one\n# two\n\n// three\n", "#\n", "//no space\n \n"}
+	importSets := [][]string{nil, {`import "fmt"`}, {`import f "fmt"`, `import "os/exec"`}, {"import (\n\"strings\"\nx \"os\"\n)"}, {"import (\n \"a/b-c.d\"\n\n y_1 \"z\"\n )"}, {`import"fmt"`}}
+	states := []string{"", " n int", " m map[string]struct{ a int }\n f func() { }", " s string // {}", "\n"}
+	esc := []rune("ab'\"[]-\\^\n\t\r\x1b\x7féÿ\u0080AZ09 {}<>/&!?*+.()#←\U0001F600")
+	for i := 0; i < nValid; i++ {
+		var g *gram.Grammar
+		switch i % 5 {
+		case 0:
+			g = gram.ChoiceHeavy(r)
+		case 1:
+			g = gram.Backtracky(r, esc[:12])
+		case 2:
+			g, _ = gram.Planted(r)
+		default:
+			p := gram.AllOps()
+			p.Alphabet = esc
+			p.LLit, p.LStr, p.LCILit, p.LClass, p.LNegClass, p.LCIClass = 6, 6, 5, 5, 4, 4
+			g = gram.Random(r, p)
+		}
+		o := gram.PrintOpts{Package: []string{"g", "main", "_p9", "Package"}[r.Intn(4)], Type: []string{"P", "Peg", "my_Parser1"}[r.Intn(3)],
+			State: states[r.Intn(len(states))], Imports: importSets[r.Intn(len(importSets))], Header: headers[r.Intn(len(headers))],
+			V: rand.New(rand.NewSource(c.env.Seed*131 + int64(i)))}
+		if i%7 == 0 {
+			o.V = nil
+		}
+		o.ActionCode = func(id int) string {
+			return []string{fmt.Sprintf("p.n += %d", id), "if true { p.x() }", "/* } */ a := map[int]struct{}{}; _ = a", "s := \"\\\"\"; _ = s", ""}[(id+i)%5]
+		}
+		o.StateCode = func(id int) string { return fmt.Sprintf("p.k[%d]++", id) }
+		t := gram.PrintGrammar(g, o)
+		// a few texts with balanced braces hidden in strings/comments break textual brace counting on purpose: keep them
+		texts = append(texts, txt{t, "valid"})
+		valid = append(valid, t)
+	}
+	for i := 0; i < nMut; i++ {
+		t := valid[r.Intn(len(valid))]
+		m := mutateText(r, t)
+		for k := r.Intn(3); k > 0; k-- {
+			m = mutateText(r, m)
+		}
+		texts = append(texts, txt{m, "mutant"})
+	}
+	for i := 0; i < nRand; i++ {
+		n := 1 + r.Intn(60)
+		rs := make([]rune, n)
+		for j := range rs {
+			rs[j] = syntaxAlphabet[r.Intn(len(syntaxAlphabet))]
+		}
+		pre := ""
+		if i%2 == 0 {
+			pre = "package p\ntype T Peg {}\n"
+		}
+		texts = append(texts, txt{pre + string(rs), "random"})
+	}
+	for _, t := range []string{"", "\x00", "\xff\xfe", "package", "package p", "package p\ntype T Peg {}", "package p\ntype T Peg {}\nA <- ", "package p\ntype T Peg {}\nA <- 'a'", "package p\ntype T Peg {}\nA <- 'a' # no newline",
+		"package p\ntype T Peg {}\nA <- ''\nB <- \"\" [] [[]]\n", "package p\ntype T Peg {}\nA <- [z-a] [\\0x10FFFF-\\0x0]\n", "package p\ntype T Peg {}\nA <- '\\377\\200\\0x80\\0X7f\\12\\N'\n"} {
+		texts = append(texts, txt{t, "boundary"})
+	}
+
+	return texts
 }
